@@ -443,6 +443,51 @@ def rule_drop(ctx):
     ctx.floor(rid + ".result-producing-calls", 500)
 
 
+def rule_deferred_first(ctx):
+    """a deferred end-of-data error is looked at before anything else can fail"""
+    rid = "R-DEFERRED-EOF-FIRST"
+    ctx.rule(rid, "the fast-lossless RLE path of the Modular decoder does not stop at the first failed read: it records the error in its "
+                  "RleState and goes on, decoding garbage.  Whatever is checked afterwards (the ANS final state) fails on that garbage, "
+                  "so the recorded error has to be surfaced first: every call of Decoder::finalize that is reachable from a call "
+                  "working on the RleState is dominated by RleState::check_error.  Otherwise a truncated section reports "
+                  "InvalidAnsStream - a hard error that poisons the frame - instead of end-of-data")
+    md = ctx.prog.crate("jxl_modular")
+    n = 0
+    for f in md.fn_list:
+        if f.kind == "Promoted":
+            continue
+        users, checks, finals = [], [], []
+        for b, t in f.calls():
+            c = callee(t)
+            if not c:
+                continue
+            nm = c["fn"]
+            if nm.endswith("RleState::<S>::check_error") or nm.endswith("RleState::check_error") or ("RleState" in nm and nm.endswith("::check_error")):
+                checks.append(b)
+            elif nm.endswith("Decoder::finalize"):
+                finals.append((b, t))
+            elif any(op_local(a) is not None and "RleState" in f.local_ty(op_local(a)) for a in t[2]):
+                users.append(b)
+        if not users or not finals:
+            continue
+        ctx.seen(f)
+        region = set()
+        for u in users:
+            region |= set(f.reachable(u))
+        for b, t in finals:
+            if b not in region:
+                continue
+            n += 1
+            if any(f.dominates(cb, b) and cb != b for cb in checks):
+                ctx.ok(rid, "%s|finalize-after-check_error" % f.path, "the deferred read error is surfaced before the final-state check", nontrivial=True, fn=f)
+            else:
+                ctx.bad(rid, "%s|finalize-before-check_error" % f.path, "Decoder::finalize runs on the RLE path before RleState::check_error: "
+                        "a truncated section fails the ANS final-state check on garbage and reports a hard error instead of end-of-data",
+                        fn=f, pos=t[-2])
+    ctx.count(rid + ".sites", n)
+    ctx.floor(rid + ".sites", 1)
+
+
 def main(pid, tier, repo=None):
     configs = ("workspace",) if tier == "quick" else ("workspace", "norayon")
     ctx = Ctx(pid, tier, configs=configs, repo=repo)
@@ -452,6 +497,7 @@ def main(pid, tier, repo=None):
         rule_sites(ctx)
         rule_partial_polarity(ctx)
         rule_drop(ctx)
+        rule_deferred_first(ctx)
     ctx.not_decided("that a partial section decodes to a correct partial image; allow_partial value computations; equality of the final result")
     return ctx.finish(
         "Classification half of the property, for every prefix at once: (1) the error-type graph is built from the ADT definitions and "
